@@ -538,3 +538,119 @@ def _tail_unit(kind):
 
 
 U_MASS_TAIL = [_tail_unit(k) for k in ("last element pending", "no element")]
+
+
+# ==============================================================================  C06: mass.init, isotope rows (loop 1) and element rows (loop 2)
+
+def _m1_inputs(st, interp):
+    use_state(st)
+    line = st.fresh("line", z3.StringSort())
+    key, m, p, avg = (st.fresh(n, z3.StringSort()) for n in ("key", "mass_text", "p_text", "avg_text"))
+    zs, sym, a_s = (st.fresh(n, z3.StringSort()) for n in ("key_Z", "key_symbol", "key_A"))
+    st.assume(z3.And(z3.InRe(zs, z3.Plus(z3.Range("0", "9"))), z3.InRe(a_s, z3.Plus(z3.Range("0", "9"))), z3.Length(zs) <= 3, z3.Length(a_s) <= 3))
+
+    def split(interp_, st_, s, args):
+        if z3.eq(s, line) and args == [","]:
+            return VList([key, m, p, avg])
+        if z3.eq(s, key) and args == ["-"]:
+            return VList([zs, sym, a_s])
+        raise Unsupported("split of an unexpected string")
+    st.ghost["str_split"] = split
+    writes = []
+    st.ghost["atom_setattr"] = lambda i_, s_, a, name, val, node: writes.append((a.expr, name, val))
+
+    def attr(interp_, st_, v, name, node):
+        if name == "add_isotope":
+            return VBuiltin("add_isotope", lambda i, s_, a, k: ATOMS.sym(s_, KC.ISOTOPE_OF(v.expr, to_z3num(i.resolve(s_, a[0])))))
+        return NotImplemented
+    st.ghost["atom_attr_first"] = attr
+    table = VObj("TargetTable", {})
+    _m1_inputs.holder.clear()
+    _m1_inputs.holder.update({"line": line, "table": table})
+    return [], {}, dict(zs=zs, sym=sym, a_s=a_s, m=m, avg=avg, writes=writes)
+
+
+_m1_inputs.holder = {}
+
+
+def _m1_post(st, interp, C, res):
+    Z, A = z3.StrToInt(C["zs"]), z3.StrToInt(C["a_s"])
+    el = KC.TT_EL(Z)
+    if res.outcome == "raise":
+        st.oblige("post.a row is rejected (AssertionError) only when its symbol is not the symbol of element Z",
+                  z3.And(z3.BoolVal(res.exc == "AssertionError"), T.SYMBOL(el) != C["sym"]), kind="raises", info={"exc": res.exc})
+        return
+    st.oblige("post.accepted rows name the symbol of element Z", T.SYMBOL(el) == C["sym"])
+    iso = KC.ISOTOPE_OF(el, A)
+    w = C["writes"]
+
+    def one(atom, name):
+        vals = [val for (a, n, val) in w if n == name and z3.eq(z3.simplify(a), z3.simplify(atom))]
+        return vals[0] if len(vals) == 1 else None
+    got = {("el", "_mass"): one(el, "_mass"), ("el", "_mass_unc"): one(el, "_mass_unc"), ("iso", "_mass"): one(iso, "_mass"),
+           ("iso", "_mass_unc"): one(iso, "_mass_unc"), ("iso", "_abundance"): one(iso, "_abundance"), ("iso", "_abundance_unc"): one(iso, "_abundance_unc")}
+    st.oblige("post.exactly six fields are written: element mass/unc, isotope mass/unc, isotope abundance/unc",
+              z3.BoolVal(len(w) == 6 and all(v is not None for v in got.values())))
+    if len(w) != 6 or any(v is None for v in got.values()):
+        return
+    st.oblige("post.isotope A of element Z gets the mass of column 2 (value and uncertainty)",
+              z3.And(spec.eq_goal(interp, st, got[("iso", "_mass")], PU_VAL(C["m"])), spec.eq_goal(interp, st, got[("iso", "_mass_unc")], PU_UNC(C["m"]))))
+    st.oblige("post.the element gets the average mass of column 4 (value and uncertainty)",
+              z3.And(spec.eq_goal(interp, st, got[("el", "_mass")], PU_VAL(C["avg"])), spec.eq_goal(interp, st, got[("el", "_mass_unc")], PU_UNC(C["avg"]))))
+    st.oblige("post.the abundance starts at 0 +- 0 (isotopes absent from the composition table keep it)",
+              z3.And(spec.eq_goal(interp, st, got[("iso", "_abundance")], 0), spec.eq_goal(interp, st, got[("iso", "_abundance_unc")], 0)))
+
+
+U_MASS_ISOTOPE_ROW = Unit("mass.init::isotope mass loop[one row]", MASS + ".init::loop#1", _m1_inputs, _m1_post, closure=lambda interp: [_m1_inputs.holder],
+                          contracts={"periodictable.util.parse_uncertainty": c_parse_uncertainty, "TargetTable.__getitem__": KC.c_tt_getitem},
+                          replay={"module": "c06", "task": "replay"})
+
+
+def _m2_inputs(kind):
+    def mk(st, interp):
+        use_state(st)
+        line = st.fresh("line", z3.StringSort())
+        zs, sym, name, value = (st.fresh(n, z3.StringSort()) for n in ("Z_text", "symbol", "name", "value_text"))
+        st.assume(z3.And(z3.InRe(zs, z3.Plus(z3.Range("0", "9"))), z3.Length(zs) <= 3))
+        st.assume(value == z3.StringVal("-") if kind == "no weight" else value != z3.StringVal("-"))
+
+        def split(interp_, st_, s, args):
+            if z3.eq(s, line) and not args:
+                return VList([zs, sym, name, value, st_.fresh("extra", z3.StringSort())])
+            raise Unsupported("split of an unexpected string")
+        st.ghost["str_split"] = split
+        writes = []
+        st.ghost["atom_setattr"] = lambda i_, s_, a, nm, val, node: writes.append((a.expr, nm, val))
+        table = VObj("TargetTable", {})
+        mk.holder.clear()
+        mk.holder.update({"line": line, "table": table})
+        return [], {}, dict(zs=zs, value=value, writes=writes, kind=kind)
+    mk.holder = {}
+    return mk
+
+
+def _m2_post(st, interp, C, res):
+    if res.outcome == "raise":
+        st.oblige("never-raises", False, kind="raises", info={"exc": res.exc})
+        return
+    w = C["writes"]
+    if C["kind"] == "no weight":
+        st.oblige("post.'-' (no standard atomic weight) leaves the element's mass as it is", z3.BoolVal(len(w) == 0))
+        return
+    el = KC.TT_EL(z3.StrToInt(C["zs"]))
+    m = [val for (a, n, val) in w if n == "_mass" and z3.eq(z3.simplify(a), z3.simplify(el))]
+    u = [val for (a, n, val) in w if n == "_mass_unc" and z3.eq(z3.simplify(a), z3.simplify(el))]
+    st.oblige("post.mass and uncertainty are written once each, on element Z", z3.BoolVal(len(m) == 1 and len(u) == 1 and len(w) == 2))
+    if len(m) == 1 and len(u) == 1:
+        st.oblige("post.they are the value(uncertainty) of column 4",
+                  z3.And(spec.eq_goal(interp, st, m[0], PU_VAL(C["value"])), spec.eq_goal(interp, st, u[0], PU_UNC(C["value"]))))
+
+
+def _m2_unit(kind):
+    mk = _m2_inputs(kind)
+    return Unit("mass.init::atomic weight loop[%s]" % kind, MASS + ".init::loop#2", mk, _m2_post, closure=lambda interp: [mk.holder],
+                contracts={"periodictable.util.parse_uncertainty": c_parse_uncertainty, "TargetTable.__getitem__": KC.c_tt_getitem},
+                replay={"module": "c06", "task": "replay"})
+
+
+U_MASS_ELEMENT_ROW = [_m2_unit(k) for k in ("weight given", "no weight")]
